@@ -393,3 +393,42 @@ pub fn cli_bin() -> PathBuf {
             .unwrap_or_else(|_| "/verif/build/target-cli/release/copia".to_string()),
     )
 }
+
+/// Run the built CLI under RLIMIT_AS = 1 GiB with a wall-clock timeout.
+/// Returns (exit code, signal, timed out, stderr).
+pub fn run_limited(args: &[std::ffi::OsString], timeout_s: u64) -> (Option<i32>, Option<i32>, bool, String) {
+    use std::os::unix::process::{CommandExt, ExitStatusExt};
+    let mut cmd = std::process::Command::new(cli_bin());
+    cmd.args(args).env("RUST_LOG", "off").env("MALLOC_ARENA_MAX", "1").env("TOKIO_WORKER_THREADS", "2").stdin(std::process::Stdio::null()).stdout(std::process::Stdio::null()).stderr(std::process::Stdio::piped());
+    unsafe {
+        cmd.pre_exec(|| {
+            let lim = libc::rlimit { rlim_cur: 1 << 30, rlim_max: 1 << 30 };
+            libc::setrlimit(libc::RLIMIT_AS, &lim);
+            Ok(())
+        });
+    }
+    let mut child = cmd.spawn().unwrap_or_else(|e| machinery_error(format!("spawn copia: {e}")));
+    let start = std::time::Instant::now();
+    loop {
+        match child.try_wait() {
+            Ok(Some(st)) => {
+                let mut err = String::new();
+                if let Some(mut e) = child.stderr.take() {
+                    use std::io::Read;
+                    let _ = e.read_to_string(&mut err);
+                }
+                return (st.code(), st.signal(), false, err);
+            }
+            Ok(None) => {
+                if start.elapsed().as_secs() >= timeout_s {
+                    let _ = child.kill();
+                    let _ = child.wait();
+                    return (None, None, true, String::new());
+                }
+                std::thread::sleep(std::time::Duration::from_millis(2));
+            }
+            Err(e) => machinery_error(format!("wait: {e}")),
+        }
+    }
+}
+
